@@ -247,6 +247,36 @@ class Gen(object):
             return self.binop(depth)
         return self.unop(depth)
 
+    def plain(self, depth):
+        """operator-free term: the class of C17_roundtrip_partial"""
+        from problog.logic import Term, Var, Constant
+        rng = self.rng
+        r = rng.random()
+        if depth <= 0 or r < 0.3:
+            k = rng.random()
+            if k < 0.35:
+                return Term(rng.choice(LOWER)) if rng.random() < 0.8 else Term(rng.choice(QUOTED))
+            if k < 0.55:
+                return Var(rng.choice(VARS))
+            if k < 0.8:
+                return self.number(allow_negative=False)
+            if k < 0.9:
+                return Constant(rng.choice(STRINGS))
+            return Term("[]")
+        if r < 0.65:
+            f = rng.choice(LOWER) if rng.random() < 0.8 else rng.choice(QUOTED)
+            return Term(f, *[self.plain(depth - 1) for _ in range(rng.randrange(1, 4))])
+        n = rng.randrange(1, 4)
+        k = rng.random()
+        tail = Term("[]")
+        if k < 0.2:
+            tail = Var(rng.choice(VARS))
+        elif k < 0.3:
+            tail = Term(rng.choice(LOWER), self.plain(0))
+        for e in reversed([self.plain(depth - 1) for _ in range(n)]):
+            tail = Term(".", e, tail)
+        return tail
+
     def lst(self, depth):
         from problog.logic import Term, Var
         rng = self.rng
